@@ -208,6 +208,21 @@ def t_client_auth_usage_required(ev, outcome, exc, path, I):
 
 c.let('__session__', 'self')
 c.trace("client-authentication-usage-required-when-enabled", t_client_auth_usage_required)
+
+
+def t_engine_only_through_its_entry_points(ev, outcome, exc):
+    """C10: a session thread uses the shared engine only through process_request (which takes the
+    engine's lock) and build_error_response (which touches no per-request state); any other method
+    or field of the engine reached from the session runs unlocked next to other sessions' requests."""
+    for e in ev:
+        if e[0] == 'engine.other':
+            return "the session reaches into the engine outside its two entry points: %s" % e[1]
+    return True
+
+
+c.props('C10')
+c.trace("engine-used-only-through-process-request-and-build-error-response", t_engine_only_through_its_entry_points)
+c.scope('trace.engine-used-only', 'C10', 'C12')
 c.trace("failures-answered-with-the-right-error", t_failures_answered)
 c.trace("oversize-replaced-by-too-large-error", t_sent_is_last_built)
 
